@@ -231,8 +231,26 @@ func replayFine(rep *vh.Report, sc Scenario) fineResult {
 		s.mu.Unlock()
 		return m
 	}
+	// blockedOnMutex: in the goroutine dump every goroutine of the thread that is inside the peers package sits
+	// in a sync mutex operation
+	blockedOnMutex := func(th string) bool {
+		d := dumpGoroutines()
+		found := false
+		for _, id := range s.goidsOf(th) {
+			g, ok := d[id]
+			if !ok || !strings.Contains(g.Raw, "/shrex/peers.(*") {
+				continue
+			}
+			if !(strings.HasPrefix(g.State, "sync.Mutex.Lock") || strings.HasPrefix(g.State, "sync.RWMutex")) {
+				return false
+			}
+			found = true
+		}
+		return found
+	}
 	stuck := map[string]bool{}
-	for round := 0; round < 12; round++ {
+	deadline := time.Now().Add(90 * time.Second)
+	for {
 		before := progress()
 		for _, th := range inside {
 			if before[th] == -1 {
@@ -251,7 +269,23 @@ func replayFine(rep *vh.Report, sc Scenario) fineResult {
 				stuck[th] = true
 			}
 		}
+		if len(stuck) == 0 {
+			break
+		}
 		if !moved {
+			// nothing arrived anywhere for a whole round: a deadlock only if every unfinished goroutine is
+			// blocked acquiring a mutex (a slow machine is not a deadlock)
+			all := true
+			for th := range stuck {
+				if !blockedOnMutex(th) {
+					all = false
+				}
+			}
+			if all || time.Now().After(deadline) {
+				break
+			}
+		}
+		if time.Now().After(deadline) {
 			break
 		}
 	}
